@@ -224,6 +224,23 @@ func WaitArmed(after int, d Duration) *Timer {
 	}
 }
 
+// Consume marks an armed timer as fired (scheduler backend): a ticker stays armed.
+func Consume(t *Timer) {
+	mu.Lock()
+	if !t.ticker {
+		t.armed = false
+		for i, p := range pending {
+			if p == t {
+				pending = append(pending[:i:i], pending[i+1:]...)
+				break
+			}
+		}
+	}
+	t.Fired++
+	now = now.Add(t.D)
+	mu.Unlock()
+}
+
 // ---- harness side (seq mode) ------------------------------------------------
 
 // Pending returns the armed timers in arming order.
